@@ -6,6 +6,7 @@ import (
 	"strings"
 	"time"
 
+	"github.com/omec-project/upf-epc/zzverif/vsim"
 	"github.com/wmnsk/go-pfcp/ie"
 	"github.com/wmnsk/go-pfcp/message"
 )
@@ -13,7 +14,7 @@ import (
 func init() {
 	Register(&PropDef{
 		ID: "C01", QuickRuns: 4800, Level: "exploration",
-		Rule: "one run = an association/session history of 1-2 peers into which 3-25 hostile datagrams are injected (random bytes; truncations; every message type the dispatcher handles and unsupported ones with 1-3 IE-level mutations: drop / duplicate / empty / retype / truncate / garble / IPv6-only address forms / corrupted flow descriptions; in states: first datagram on the listening socket, before/after association, with sessions, unknown SEID, after release). In one run in four the agent itself opens the association towards the victim (cpiface.peers) and every transmission of its Association Setup Request is answered with a valid, rejected, truncated or IE-mutated response carrying the right sequence number. With heartbeats enabled (intervals 15 ms / 40 ms / 5 s) the victim may sit on the agent's Heartbeat Requests and answer them late, and repeats its Association Setup on the live association, so that responses meet requests the agent has meanwhile abandoned. Monitors: any panic or Fatal of an agent task (attributed to the innermost repo frame); a valid Heartbeat Request sent afterwards on the same and on another association must be answered; at most one response-type datagram per injected datagram. Non-trivial = at least one accepted session operation or association plus at least one hostile datagram; distinct = different sequence of (state, message type, mutation kinds).",
+		Rule: "one run = an association/session history of 1-2 peers into which 3-25 hostile datagrams are injected (random bytes; truncations; every message type the dispatcher handles and unsupported ones with 1-3 IE-level mutations: drop / duplicate / empty / retype / truncate / garble / IPv6-only address forms / corrupted flow descriptions; in states: first datagram on the listening socket, before/after association, with sessions, unknown SEID, after release). In one run in four the agent itself opens the association towards the victim (cpiface.peers) and every transmission of its Association Setup Request is answered with a valid, rejected, truncated or IE-mutated response carrying the right sequence number. With heartbeats enabled (intervals 15 ms / 40 ms / 5 s) the victim may sit on the agent's Heartbeat Requests and answer them late, and repeats its Association Setup on the live association, so that responses meet requests the agent has meanwhile abandoned; its PFCP port may be closed for a moment while the agent answers it (ICMP port unreachable, ECONNREFUSED on the agent's next read). One run in 48 is a long valid history instead: one failed write to the end-marker socket followed by more than a thousand hand-overs with end markers over two associations, every one of which must be answered. Monitors: any panic or Fatal of an agent task (attributed to the innermost repo frame); a valid Heartbeat Request sent afterwards on the same and on another association must be answered; at most one response-type datagram per injected datagram. Non-trivial = at least one accepted session operation or association plus at least one hostile datagram; distinct = different sequence of (state, message type, mutation kinds).",
 		Assume: []string{"hostile generators are built on an independent TLV codec; 'answered' means within 5 virtual seconds after the agent is quiescent"},
 		Real: CommonReal, Simulated: CommonSim,
 		Scenario: scenarioC01,
@@ -291,6 +292,10 @@ func (h *hostile) datagram(p *Peer) (string, []byte) {
 }
 
 func scenarioC01(r *Run) {
+	if r.Ch.Choose(48, "long-history") == 1 {
+		scenarioC01LongHistory(r)
+		return
+	}
 	r.Conf = DefaultBESSConf()
 	r.Conf.EnableHBTimer = r.Ch.Choose(3, "hb") == 1
 	if r.Conf.EnableHBTimer {
@@ -523,4 +528,66 @@ func skelOf(name string) string {
 		out += ":" + strings.Join(kinds, "+")
 	}
 	return out
+}
+
+
+// scenarioC01LongHistory: nothing hostile in the payload, a fault outside it: one
+// write to the end-marker socket fails (the datapath's end is not reading for a
+// moment); more than a thousand hand-overs with end markers follow, spread
+// over two associations. Every request must still be answered and both
+// associations must go on answering heartbeats (a consumer that gave up would
+// let a queue fill and block the receive loops).
+func scenarioC01LongHistory(r *Run) {
+	r.Conf = DefaultBESSConf()
+	r.Conf.EnableEndMarker = true
+	r.Conf.EnableHBTimer = false
+	r.Sim.Strat = vsim.StratRunToBlock
+	r.Sim.MaxSteps = 40_000_000
+	a, b := r.AddPeer(), r.AddPeer()
+	r.StartAgent()
+	if !r.AgentAlive() || a.Associate() == nil || b.Associate() == nil {
+		r.CheckNoPanics("C01")
+		return
+	}
+	g := NewGen(r)
+	g.PlainQER = true
+	sa, sb := g.Session(a, SessShape{}), g.Session(b, SessShape{})
+	if !a.Establish(sa).Accepted || !b.Establish(sb).Accepted {
+		return
+	}
+	r.Accepted += 2
+	sink := "/tmp/pfcpport"
+	failAt := r.Ch.Choose(20, "fail-at")
+	n := 1040 + r.Ch.Choose(40, "handovers")
+	r.Skel("long-endmarker-history")
+	for k := 0; k < n && r.AgentAlive(); k++ {
+		if k == failAt {
+			r.W.Net.UnixFailNext[sink] = 1 + r.Ch.Choose(2, "fails")
+			r.Fault("end-marker-socket-write-fails")
+		}
+		p, s := a, sa
+		if k%5 == 4 {
+			p, s = b, sb
+		}
+		g.nextTEID++
+		f := &FARSpec{ID: 2, Action: ActFORW, DstIface: IfAccess, HasFwd: true, HasOHC: true, TEID: g.nextTEID, PeerIP: g.gnbs[k%len(g.gnbs)], EndMarker: true}
+		res := p.Modify(s, &ModSpec{Tag: "uF:handover", UpdateFAR: []*FARSpec{f}})
+		if res.Rx == nil {
+			if r.AgentAlive() {
+				r.Violate("C01", "valid-request-unanswered:long-history", "hand-over %d of %d (end marker flag set) of peer%d got no answer; one end-marker socket write had failed at hand-over %d\n%s", k, n, p.Idx, failAt, strings.Join(r.Sim.BlockedTable(), "\n"))
+			}
+			return
+		}
+		if res.Accepted {
+			r.Accepted++
+		}
+	}
+	r.Op("%d hand-overs with end markers after a failed end-marker write at hand-over %d", n, failAt)
+	for _, p := range []*Peer{a, b} {
+		if p.HeartbeatRetry() == nil && r.AgentAlive() {
+			r.Violate("C01", "wedged-after-long-history", "after %d hand-overs peer%d gets no heartbeat answer\n%s", n, p.Idx, strings.Join(r.Sim.BlockedTable(), "\n"))
+			return
+		}
+	}
+	r.CheckNoPanics("C01")
 }
